@@ -1,7 +1,694 @@
 package main
 
-// Replay of solver models against the real code (go test -overlay). See tryReplay.
+// Replay of solver models against the real code.
+//
+// For a failed obligation with a (candidate) model, the inputs of the function are
+// read off the model, a Go test that calls the REAL function with those inputs is
+// injected with `go test -overlay` (nothing is written into /repo), and what the real
+// code does is compared with what the model predicts:
+//   - panic-class obligations: confirmed when the real call panics;
+//   - postconditions: confirmed when the real call's observable outputs (results and the
+//     final contents of everything reachable from pointer parameters) equal the outputs
+//     the model predicts - the solver has shown the clause false for exactly those values.
+// Anything else (unsupported parameter types, model not faithful) is reported as
+// not confirmed: the VIOLATION line then ends with no-failing-input-found.
+
+import (
+	"encoding/json"
+	"fmt"
+	"go/types"
+	"os"
+	"os/exec"
+	"path/filepath"
+	"sort"
+	"strconv"
+	"strings"
+
+	"golang.org/x/tools/go/ssa"
+)
+
+const replayMaxElems = 48
+
+type obsItem struct {
+	name string // obs symbol
+	term string
+	sort string
+}
+
+type replayBuilder struct {
+	c      *FnVC
+	obs    []obsItem
+	bounds []string
+	unsup  string
+	n      int
+}
+
+func (rb *replayBuilder) add(term, sort string) string {
+	rb.n++
+	name := fmt.Sprintf("obs_%d", rb.n)
+	rb.obs = append(rb.obs, obsItem{name, term, sort})
+	return name
+}
+
+// value tree describing how to observe / rebuild a Go value
+type valNode struct {
+	t        types.Type
+	kind     string // int, bool, string, slice, ptr, struct, unsupported
+	scalar   string // obs name (int/bool)
+	strLen   string
+	strBytes []string
+	// slice
+	isNil, base, off, ln, cp string
+	elems                      []*valNode // element values (entry or final heap)
+	// pointer
+	loc    string
+	pnil   string
+	target *valNode
+	fields []*valNode
+}
+
+func (rb *replayBuilder) observe(t types.Type, term string, heap HeapState, depth int) *valNode {
+	c := rb.c
+	n := &valNode{t: t}
+	if depth > 4 {
+		n.kind = "unsupported"
+		rb.unsup = "value nesting too deep"
+		return n
+	}
+	switch u := t.Underlying().(type) {
+	case *types.Basic:
+		switch {
+		case u.Info()&types.IsInteger != 0:
+			n.kind = "int"
+			n.scalar = rb.add(term, c.te.sortOf(t))
+		case u.Info()&types.IsBoolean != 0:
+			n.kind = "bool"
+			n.scalar = rb.add(term, "Bool")
+		case u.Info()&types.IsString != 0:
+			n.kind = "string"
+			n.strLen = rb.add("(str_len "+term+")", "(_ BitVec 64)")
+			rb.bounds = append(rb.bounds, fmt.Sprintf("(bvsle (str_len %s) %s)", term, bv64(replayMaxElems)))
+			for i := 0; i < replayMaxElems; i++ {
+				n.strBytes = append(n.strBytes, rb.add(fmt.Sprintf("(select (str_arr %s) %s)", term, bv64(int64(i))), "(_ BitVec 8)"))
+			}
+		default:
+			n.kind = "unsupported"
+			rb.unsup = "parameter of type " + t.String()
+		}
+	case *types.Slice:
+		ek := c.te.kindOf(u.Elem())
+		if _, _, isInt := c.te.intWidth(u.Elem()); !isInt || ek == "" {
+			n.kind = "unsupported"
+			rb.unsup = "slice of " + u.Elem().String()
+			return n
+		}
+		n.kind = "slice"
+		n.isNil = rb.add(fmt.Sprintf("(= (s_arr %s) NullLoc)", term), "Bool")
+		n.base = rb.add(fmt.Sprintf("(s_arr %s)", term), "Loc")
+		n.off = rb.add(fmt.Sprintf("(s_off %s)", term), "(_ BitVec 64)")
+		n.ln = rb.add(fmt.Sprintf("(s_len %s)", term), "(_ BitVec 64)")
+		n.cp = rb.add(fmt.Sprintf("(s_cap %s)", term), "(_ BitVec 64)")
+		rb.bounds = append(rb.bounds, fmt.Sprintf("(bvsle (s_cap %s) %s)", term, bv64(replayMaxElems)), fmt.Sprintf("(bvsle (s_off %s) %s)", term, bv64(replayMaxElems)))
+		h := c.hOf(heap, ek)
+		for i := 0; i < replayMaxElems; i++ {
+			e := &valNode{t: u.Elem(), kind: "int"}
+			e.scalar = rb.add(fmt.Sprintf("(select %s (elem %s %s))", h, term, bv64(int64(i))), c.te.sortOf(u.Elem()))
+			n.elems = append(n.elems, e)
+		}
+	case *types.Pointer:
+		n.kind = "ptr"
+		n.loc = rb.add(term, "Loc")
+		n.pnil = rb.add(fmt.Sprintf("(= %s NullLoc)", term), "Bool")
+		saved := c.cur
+		c.cur = heap
+		defer func() { c.cur = saved }()
+		switch u.Elem().Underlying().(type) {
+		case *types.Struct, *types.Basic, *types.Slice:
+			lt := c.load(u.Elem(), term)
+			n.target = rb.observe(u.Elem(), lt, heap, depth+1)
+		default:
+			n.kind = "unsupported"
+			rb.unsup = "pointer to " + u.Elem().String()
+		}
+	case *types.Struct:
+		n.kind = "struct"
+		si := c.te.structOf(u)
+		for i := 0; i < u.NumFields(); i++ {
+			n.fields = append(n.fields, rb.observe(u.Field(i).Type(), fmt.Sprintf("(%s_f%d %s)", si.name, i, term), heap, depth+1))
+		}
+	default:
+		n.kind = "unsupported"
+		rb.unsup = "parameter of type " + t.String()
+	}
+	return n
+}
+
+// ---- model values
+
+type modelVals map[string]string
+
+func parseGetValue(out string) modelVals {
+	mv := modelVals{}
+	// output: ((obs_1 val)\n (obs_2 val) ...)
+	i := strings.Index(out, "((")
+	if i < 0 {
+		return mv
+	}
+	s := out[i+1:]
+	depth := 0
+	start := -1
+	for j := 0; j < len(s); j++ {
+		switch s[j] {
+		case '(':
+			if depth == 0 {
+				start = j
+			}
+			depth++
+		case ')':
+			depth--
+			if depth == 0 && start >= 0 {
+				item := s[start+1 : j]
+				if k := strings.IndexAny(item, " \n"); k > 0 {
+					mv[item[:k]] = strings.Join(strings.Fields(item[k+1:]), " ")
+				}
+				start = -1
+			}
+			if depth < 0 {
+				return mv
+			}
+		}
+	}
+	return mv
+}
+
+func bvVal(s string) (uint64, bool) {
+	s = strings.TrimSpace(s)
+	if strings.HasPrefix(s, "#x") {
+		v, err := strconv.ParseUint(s[2:], 16, 64)
+		return v, err == nil
+	}
+	if strings.HasPrefix(s, "#b") {
+		v, err := strconv.ParseUint(s[2:], 2, 64)
+		return v, err == nil
+	}
+	return 0, false
+}
+
+// ---- Go source generation
+
+type goGen struct {
+	c       *FnVC
+	mv      modelVals
+	decls   []string
+	imports map[string]string // path -> alias
+	nvar    int
+	arrays  map[string]string // base loc -> array var (per element type)
+	ptrs    map[string]string // loc -> pointee var
+	err     string
+}
+
+func (g *goGen) qual(p *types.Package) string {
+	if p == g.c.fn.Pkg.Pkg {
+		return ""
+	}
+	if a, ok := g.imports[p.Path()]; ok {
+		return a
+	}
+	a := fmt.Sprintf("vp%d_%s", len(g.imports), p.Name())
+	g.imports[p.Path()] = a
+	return a
+}
+
+func (g *goGen) typeStr(t types.Type) string { return types.TypeString(t, g.qual) }
+
+func (g *goGen) intLit(t types.Type, v uint64) string {
+	w, signed, _ := g.c.te.intWidth(t)
+	if signed {
+		var sv int64
+		switch w {
+		case 8:
+			sv = int64(int8(v))
+		case 16:
+			sv = int64(int16(v))
+		case 32:
+			sv = int64(int32(v))
+		default:
+			sv = int64(v)
+		}
+		return fmt.Sprintf("%s(%d)", g.typeStr(t), sv)
+	}
+	return fmt.Sprintf("%s(%d)", g.typeStr(t), v&mask(w))
+}
+
+// expr returns a Go expression rebuilding the value described by n.
+func (g *goGen) expr(n *valNode) string {
+	switch n.kind {
+	case "int":
+		v, ok := bvVal(g.mv[n.scalar])
+		if !ok {
+			g.err = "no model value for " + n.scalar
+		}
+		return g.intLit(n.t, v)
+	case "bool":
+		return fmt.Sprintf("%s(%s)", g.typeStr(n.t), g.mv[n.scalar])
+	case "string":
+		l, _ := bvVal(g.mv[n.strLen])
+		if l > replayMaxElems {
+			g.err = "string too long in model"
+			return `""`
+		}
+		var bs []string
+		for i := uint64(0); i < l; i++ {
+			b, _ := bvVal(g.mv[n.strBytes[i]])
+			bs = append(bs, fmt.Sprint(b))
+		}
+		return fmt.Sprintf("%s([]byte{%s})", g.typeStr(n.t), strings.Join(bs, ","))
+	case "slice":
+		if g.mv[n.isNil] == "true" {
+			return fmt.Sprintf("%s(nil)", g.typeStr(n.t))
+		}
+		off, _ := bvVal(g.mv[n.off])
+		ln, _ := bvVal(g.mv[n.ln])
+		cp, _ := bvVal(g.mv[n.cp])
+		if cp > replayMaxElems || off > replayMaxElems || ln > cp {
+			g.err = "slice too large in model"
+			return "nil"
+		}
+		et := n.t.Underlying().(*types.Slice).Elem()
+		key := g.mv[n.base] + "/" + et.String()
+		arr, ok := g.arrays[key]
+		if !ok {
+			g.nvar++
+			arr = fmt.Sprintf("arr%d", g.nvar)
+			g.arrays[key] = arr
+			g.decls = append(g.decls, fmt.Sprintf("%s := make([]%s, %d)", arr, g.typeStr(et), 2*replayMaxElems+2))
+		}
+		for i := uint64(0); i < ln; i++ {
+			v, _ := bvVal(g.mv[n.elems[i].scalar])
+			g.decls = append(g.decls, fmt.Sprintf("%s[%d] = %s", arr, off+i, g.intLit(et, v)))
+		}
+		return fmt.Sprintf("%s(%s[%d:%d:%d])", g.typeStr(n.t), arr, off, off+ln, off+cp)
+	case "ptr":
+		if g.mv[n.pnil] == "true" {
+			return fmt.Sprintf("(%s)(nil)", g.typeStr(n.t))
+		}
+		loc := g.mv[n.loc]
+		pt := n.t.Underlying().(*types.Pointer).Elem()
+		key := loc + "/" + pt.String()
+		v, ok := g.ptrs[key]
+		if !ok {
+			g.nvar++
+			v = fmt.Sprintf("obj%d", g.nvar)
+			g.ptrs[key] = v
+			init := g.expr(n.target)
+			g.decls = append(g.decls, fmt.Sprintf("var %s %s = %s", v, g.typeStr(pt), init))
+		}
+		return fmt.Sprintf("(%s)(&%s)", g.typeStr(n.t), v)
+	case "struct":
+		st := n.t.Underlying().(*types.Struct)
+		var fs []string
+		for i, f := range n.fields {
+			fs = append(fs, fmt.Sprintf("%s: %s", st.Field(i).Name(), g.expr(f)))
+		}
+		return fmt.Sprintf("%s{%s}", g.typeStr(n.t), strings.Join(fs, ", "))
+	}
+	g.err = "unsupported value"
+	return "nil"
+}
+
+// dump returns Go statements appending a canonical rendering of the value to `out`.
+func dumpStmt(n *valNode, goExpr string, label string) string {
+	return fmt.Sprintf("out = append(out, %q+\"=\"+vpDump(%s))", label, goExpr)
+}
+
+// expected renders the model's value of n canonically (same format as vpDump).
+func (g *goGen) expected(n *valNode) string {
+	switch n.kind {
+	case "int":
+		v, _ := bvVal(g.mv[n.scalar])
+		w, signed, _ := g.c.te.intWidth(n.t)
+		if signed {
+			switch w {
+			case 8:
+				return fmt.Sprint(int64(int8(v)))
+			case 16:
+				return fmt.Sprint(int64(int16(v)))
+			case 32:
+				return fmt.Sprint(int64(int32(v)))
+			}
+			return fmt.Sprint(int64(v))
+		}
+		return fmt.Sprint(v & mask(w))
+	case "bool":
+		return g.mv[n.scalar]
+	case "string":
+		l, _ := bvVal(g.mv[n.strLen])
+		var bs []string
+		for i := uint64(0); i < l && i < replayMaxElems; i++ {
+			b, _ := bvVal(g.mv[n.strBytes[i]])
+			bs = append(bs, fmt.Sprint(b))
+		}
+		return "str[" + strings.Join(bs, " ") + "]"
+	case "slice":
+		if g.mv[n.isNil] == "true" {
+			return "nil"
+		}
+		ln, _ := bvVal(g.mv[n.ln])
+		var es []string
+		for i := uint64(0); i < ln && i < replayMaxElems; i++ {
+			es = append(es, g.expected(n.elems[i]))
+		}
+		return fmt.Sprintf("len=%d[%s]", ln, strings.Join(es, " "))
+	case "ptr":
+		if g.mv[n.pnil] == "true" {
+			return "nilptr"
+		}
+		return "&" + g.expected(n.target)
+	case "struct":
+		var fs []string
+		for _, f := range n.fields {
+			fs = append(fs, g.expected(f))
+		}
+		return "{" + strings.Join(fs, ",") + "}"
+	}
+	return "?"
+}
+
+const vpDumpSrc = `
+func vpDump(v interface{}) string {
+	rv := reflect.ValueOf(v)
+	return vpDumpV(rv)
+}
+func vpDumpV(rv reflect.Value) string {
+	switch rv.Kind() {
+	case reflect.Int, reflect.Int8, reflect.Int16, reflect.Int32, reflect.Int64:
+		return fmt.Sprint(rv.Int())
+	case reflect.Uint, reflect.Uint8, reflect.Uint16, reflect.Uint32, reflect.Uint64, reflect.Uintptr:
+		return fmt.Sprint(rv.Uint())
+	case reflect.Bool:
+		return fmt.Sprint(rv.Bool())
+	case reflect.String:
+		s := rv.String()
+		var bs []string
+		for i := 0; i < len(s); i++ {
+			bs = append(bs, fmt.Sprint(s[i]))
+		}
+		return "str[" + strings.Join(bs, " ") + "]"
+	case reflect.Slice:
+		if rv.IsNil() {
+			return "nil"
+		}
+		var es []string
+		for i := 0; i < rv.Len(); i++ {
+			es = append(es, vpDumpV(rv.Index(i)))
+		}
+		return fmt.Sprintf("len=%d[%s]", rv.Len(), strings.Join(es, " "))
+	case reflect.Ptr:
+		if rv.IsNil() {
+			return "nilptr"
+		}
+		return "&" + vpDumpV(rv.Elem())
+	case reflect.Struct:
+		var fs []string
+		for i := 0; i < rv.NumField(); i++ {
+			fs = append(fs, vpDumpV(rv.Field(i)))
+		}
+		return "{" + strings.Join(fs, ",") + "}"
+	case reflect.Interface:
+		if rv.IsNil() {
+			return "niliface"
+		}
+		return "iface"
+	}
+	return "?"
+}
+`
+
+var panicClasses = map[string]bool{"bounds": true, "slice": true, "nil": true, "div": true, "shift": true, "make": true, "panic": true, "typeassert": true, "nilmap": true, "nilfunc": true}
 
 func tryReplay(P *Prog, verif, prop string, o *Obligation) map[string]any {
-	return nil
+	res := map[string]any{"confirmed": false}
+	c := o.Fn
+	if c == nil || c.fn == nil || c.fn.Pkg == nil {
+		return nil
+	}
+	if c.fn.Parent() != nil || len(c.fn.FreeVars) > 0 {
+		res["replay_skipped"] = "closure"
+		return res
+	}
+	isPanic := panicClasses[o.Class]
+	if !isPanic && o.Class != "ensures" {
+		res["replay_skipped"] = "obligation class " + o.Class + " has no directly observable effect on the function's interface"
+		return res
+	}
+	rb := &replayBuilder{c: c}
+	saveOut := len(c.out)
+	var ins []*valNode
+	for _, p := range c.fn.Params {
+		ins = append(ins, rb.observe(p.Type(), c.vals[p], c.entry, 0))
+	}
+	// globals of basic type read by the function
+	type gobs struct {
+		g *ssa.Global
+		n *valNode
+	}
+	var globs []gobs
+	for g := range c.globals {
+		pt := g.Type().(*types.Pointer).Elem()
+		if b, ok := pt.Underlying().(*types.Basic); ok && b.Info()&(types.IsBoolean|types.IsInteger) != 0 {
+			saved := c.cur
+			c.cur = c.entry
+			t := c.load(pt, c.globalLoc(g))
+			c.cur = saved
+			globs = append(globs, gobs{g, rb.observe(pt, t, c.entry, 0)})
+		}
+	}
+	sort.Slice(globs, func(i, j int) bool { return globs[i].g.Name() < globs[j].g.Name() })
+	// predicted outputs
+	var outs []*valNode
+	var outsPost []*valNode
+	if !isPanic && c.retVals != nil {
+		rs := c.fn.Signature.Results()
+		for i := 0; i < rs.Len(); i++ {
+			switch rs.At(i).Type().Underlying().(type) {
+			case *types.Interface:
+				// only nil-ness of interface results (errors) is compared
+				n := &valNode{t: rs.At(i).Type(), kind: "ifacenil"}
+				n.scalar = rb.add(fmt.Sprintf("(= (i_typ %s) 0)", c.retVals[i]), "Bool")
+				outs = append(outs, n)
+			default:
+				outs = append(outs, rb.observe(rs.At(i).Type(), c.retVals[i], c.retHeap, 0))
+			}
+		}
+		for _, p := range c.fn.Params {
+			if _, ok := p.Type().Underlying().(*types.Pointer); ok {
+				outsPost = append(outsPost, rb.observe(p.Type(), c.vals[p], c.retHeap, 0))
+			} else {
+				outsPost = append(outsPost, nil)
+			}
+		}
+	}
+	extraDefs := append([]string{}, c.out[saveOut:]...)
+	c.out = c.out[:saveOut]
+	if rb.unsup != "" {
+		res["replay_skipped"] = "unsupported for replay: " + rb.unsup
+		return res
+	}
+	// query: original (without quantified axioms unless the verdict was a real sat), bounds, get-value
+	base := o.smt(false)
+	base = strings.Replace(base, "(check-sat)\n", "", 1)
+	if o.Verdict != "sat" {
+		base = dropQuantified(base)
+	}
+	var q strings.Builder
+	q.WriteString(base)
+	for _, l := range extraDefs {
+		q.WriteString(l + "\n")
+	}
+	for _, ob := range rb.obs {
+		fmt.Fprintf(&q, "(define-fun %s () %s %s)\n", ob.name, ob.sort, ob.term)
+	}
+	var names []string
+	for _, ob := range rb.obs {
+		names = append(names, ob.name)
+	}
+	withBounds := q.String()
+	for _, b := range rb.bounds {
+		withBounds += "(assert " + b + ")\n"
+	}
+	tail := "(check-sat)\n(get-value (" + strings.Join(names, " ") + "))\n"
+	v, out, _ := runSolver(solvers[1], withBounds+tail, 20)
+	if v != "sat" {
+		res["replay_skipped"] = "no small model (all inputs within " + fmt.Sprint(replayMaxElems) + " elements): " + v
+		return res
+	}
+	mv := parseGetValue(out)
+	g := &goGen{c: c, mv: mv, imports: map[string]string{}, arrays: map[string]string{}, ptrs: map[string]string{}}
+	var args []string
+	for _, n := range ins {
+		args = append(args, g.expr(n))
+	}
+	var setGlobals []string
+	inputDescr := map[string]string{}
+	for _, gb := range globs {
+		name := gb.g.Name()
+		if gb.g.Pkg != c.fn.Pkg {
+			name = g.qual(gb.g.Pkg.Pkg) + "." + name
+		}
+		setGlobals = append(setGlobals, fmt.Sprintf("%s = %s", name, g.expr(gb.n)))
+		inputDescr["global "+name] = g.expected(gb.n)
+	}
+	if g.err != "" {
+		res["replay_skipped"] = g.err
+		return res
+	}
+	for i, p := range c.fn.Params {
+		inputDescr[p.Name()] = g.expected(ins[i])
+	}
+	// call expression
+	sig := c.fn.Signature
+	var call string
+	if sig.Recv() != nil {
+		call = fmt.Sprintf("(%s).%s(%s)", "a0", c.fn.Name(), joinArgs(len(args)-1, 1))
+	} else {
+		call = fmt.Sprintf("%s(%s)", c.fn.Name(), joinArgs(len(args), 0))
+	}
+	nres := sig.Results().Len()
+	var b strings.Builder
+	fmt.Fprintf(&b, "package %s\n\nimport (\n\t\"fmt\"\n\t\"reflect\"\n\t\"strings\"\n\t\"testing\"\n", c.fn.Pkg.Pkg.Name())
+	for p, a := range g.imports {
+		fmt.Fprintf(&b, "\t%s %q\n", a, p)
+	}
+	b.WriteString(")\n\nvar _ = strings.Join\nvar _ = reflect.ValueOf\n" + vpDumpSrc)
+	b.WriteString("\nfunc TestVerifReplay(t *testing.T) {\n\tvar out []string\n")
+	for _, d := range g.decls {
+		b.WriteString("\t" + d + "\n")
+	}
+	for i, a := range args {
+		fmt.Fprintf(&b, "\ta%d := %s\n\t_ = a%d\n", i, a, i)
+	}
+	for _, s := range setGlobals {
+		b.WriteString("\t" + s + "\n")
+	}
+	b.WriteString("\tfunc() {\n\t\tdefer func() {\n\t\t\tif r := recover(); r != nil {\n\t\t\t\tfmt.Printf(\"VERIF-REPLAY-PANIC: %v\\n\", r)\n\t\t\t}\n\t\t}()\n")
+	if nres == 0 {
+		fmt.Fprintf(&b, "\t\t%s\n", call)
+	} else {
+		var rs []string
+		for i := 0; i < nres; i++ {
+			rs = append(rs, fmt.Sprintf("r%d", i))
+		}
+		fmt.Fprintf(&b, "\t\t%s := %s\n", strings.Join(rs, ", "), call)
+		for i := 0; i < nres; i++ {
+			if _, isI := sig.Results().At(i).Type().Underlying().(*types.Interface); isI {
+				fmt.Fprintf(&b, "\t\tout = append(out, fmt.Sprintf(\"result%d=isnil:%%v\", r%d == nil))\n", i, i)
+			} else {
+				fmt.Fprintf(&b, "\t\tout = append(out, \"result%d=\"+vpDump(r%d))\n", i, i)
+			}
+		}
+	}
+	for i, p := range c.fn.Params {
+		if _, ok := p.Type().Underlying().(*types.Pointer); ok {
+			fmt.Fprintf(&b, "\t\tout = append(out, \"%s=\"+vpDump(a%d))\n", p.Name(), i)
+		}
+	}
+	b.WriteString("\t\tfmt.Printf(\"VERIF-REPLAY-OUT: %s\\n\", strings.Join(out, \"; \"))\n\t}()\n}\n")
+	// expected output line
+	var exp []string
+	if !isPanic {
+		for i, n := range outs {
+			if n.kind == "ifacenil" {
+				exp = append(exp, fmt.Sprintf("result%d=isnil:%s", i, mv[n.scalar]))
+			} else {
+				exp = append(exp, fmt.Sprintf("result%d=%s", i, g.expected(n)))
+			}
+		}
+		for i, p := range c.fn.Params {
+			if outsPost[i] != nil {
+				exp = append(exp, fmt.Sprintf("%s=%s", p.Name(), g.expected(outsPost[i])))
+			}
+		}
+	}
+	dir := filepath.Join(verif, "evidence", "replays")
+	testPath := filepath.Join(dir, prop+"-"+sanitize(o.Name)+"_test.go")
+	os.WriteFile(testPath, []byte(b.String()), 0o644)
+	pkgDir := filepath.Dir(P.prog.Fset.Position(c.fn.Pos()).Filename)
+	ov := map[string]any{"Replace": map[string]string{filepath.Join(pkgDir, "zz_verif_replay_test.go"): testPath}}
+	ovj, _ := json.Marshal(ov)
+	ovPath := strings.TrimSuffix(testPath, "_test.go") + ".overlay.json"
+	os.WriteFile(ovPath, ovj, 0o644)
+	repoRoot := repoRootOf(pkgDir)
+	cmd := exec.Command("go", "test", "-overlay", ovPath, "-vet=off", "-count=1", "-timeout", "60s", "-run", "^TestVerifReplay$", "-v", "./"+relPath(repoRoot, pkgDir))
+	cmd.Dir = repoRoot
+	cmd.Env = append(os.Environ(), "GOFLAGS=-mod=mod", "GOPROXY=off", "GOSUMDB=off", "GOTOOLCHAIN=local")
+	outb, _ := cmd.CombinedOutput()
+	runOut := string(outb)
+	res["replay_test"] = testPath
+	res["replay_overlay"] = ovPath
+	res["replay_cmd"] = "cd " + repoRoot + " && go test -overlay " + ovPath + " -vet=off -count=1 -timeout 60s -run '^TestVerifReplay$' -v ./" + relPath(repoRoot, pkgDir)
+	res["input"] = inputDescr
+	var panicMsg, outLine string
+	for _, l := range strings.Split(runOut, "\n") {
+		l = strings.TrimSpace(l)
+		if strings.HasPrefix(l, "VERIF-REPLAY-PANIC:") {
+			panicMsg = strings.TrimSpace(strings.TrimPrefix(l, "VERIF-REPLAY-PANIC:"))
+		}
+		if strings.HasPrefix(l, "VERIF-REPLAY-OUT:") {
+			outLine = strings.TrimSpace(strings.TrimPrefix(l, "VERIF-REPLAY-OUT:"))
+		}
+	}
+	res["observed_panic"] = panicMsg
+	res["observed_output"] = outLine
+	if panicMsg == "" && outLine == "" {
+		res["replay_skipped"] = "replay test did not run: " + truncate(runOut, 2000)
+		return res
+	}
+	if isPanic {
+		res["confirmed"] = panicMsg != ""
+		if panicMsg == "" {
+			res["replay_note"] = "the real code does not panic on the model's input (model not faithful, e.g. through an abstracted call)"
+		}
+		return res
+	}
+	expLine := strings.Join(exp, "; ")
+	res["predicted_output"] = expLine
+	if panicMsg != "" {
+		res["confirmed"] = true
+		res["replay_note"] = "the real code panics on this input"
+		return res
+	}
+	if expLine == outLine {
+		res["confirmed"] = true
+		res["replay_note"] = "the real code produces exactly the outputs for which the solver refuted the clause: " + o.Descr
+	} else {
+		res["replay_note"] = "observed outputs differ from the model's prediction (model not faithful to the real execution)"
+	}
+	return res
+}
+
+func joinArgs(n, from int) string {
+	var as []string
+	for i := from; i < from+n; i++ {
+		as = append(as, fmt.Sprintf("a%d", i))
+	}
+	return strings.Join(as, ", ")
+}
+
+func repoRootOf(dir string) string {
+	d := dir
+	for d != "/" {
+		if _, err := os.Stat(filepath.Join(d, "go.mod")); err == nil {
+			return d
+		}
+		d = filepath.Dir(d)
+	}
+	return dir
+}
+
+func relPath(root, dir string) string {
+	r, err := filepath.Rel(root, dir)
+	if err != nil {
+		return "."
+	}
+	return r
 }
